@@ -135,6 +135,8 @@ class Ctx:
             return VSeq(t, kind[1])
         if k == 'stack':
             return VStack(t, kind[1])
+        if k == 'set':
+            return VSet(t, kind[1])
         raise OutOfReach(f'val_of {kind}')
 
     # ------------------------------------------------------------------ heap
